@@ -26,13 +26,13 @@ import (
 	"testing"
 	"unicode"
 
-	"verifc20/format"
-	"verifc20/stringx"
-	kit "verifc20/verifkit"
+	"github.com/gotid/god/tools/god/util/format"
+	"github.com/gotid/god/tools/god/util/stringx"
+	kit "github.com/gotid/god/tools/god/zz_verif/kit"
 )
 
 // named tokens of spec/Naming.tla; every other token is the character itself
-var c20Runes = map[string]string{"zh": "中", "di": "ı", "ta": "ɐ", "sp": " "}
+var c20Runes = map[string]string{"zh": "中", "di": "ı", "ta": "ɐ", "sp": " ", "ls": "ſ", "Id": "İ", "ax": "ⱥ"}
 
 func c20Text(v any) string {
 	var b strings.Builder
@@ -76,10 +76,10 @@ func c20Conv(f func() string) (s string, pv string) {
 	return f(), ""
 }
 
-// a rune whose upper-case form has another UTF-8 length (the §5 clause of DESIGN.md)
+// a rune whose upper- or lower-case form has another UTF-8 length (the §5 clause of DESIGN.md)
 func c20CaseLength(s string) string {
 	for _, r := range s {
-		if len(string(unicode.ToUpper(r))) != len(string(r)) {
+		if len(string(unicode.ToUpper(r))) != len(string(r)) || len(string(unicode.ToLower(r))) != len(string(r)) {
 			return ":case-length-rune"
 		}
 	}
